@@ -90,7 +90,13 @@ func pcr(c *mon.Ctx, v uint64, r *gen.Rand, class string) {
 			buf = priorPCR(kind, v, r)
 		}
 		orig := append([]byte{}, buf...)
-		gots.InsertPCR(buf[5:11:16], v)
+		// the destination is handed over as the six bytes, or as the rest of the buffer that begins with them
+		if kind%2 == 0 {
+			gots.InsertPCR(buf[5:11:16], v)
+		} else {
+			gots.InsertPCR(buf[5:], v)
+			c.Count("pcr.destination_longer_than_the_field")
+		}
 		c.Eval(1)
 		if !bytes.Equal(buf[5:11], want[:]) {
 			c.Fail("pcr:insert-bytes", fmt.Sprintf("InsertPCR(%d) wrote %x, ISO 13818-1 encoding is %x", v, buf[5:11], want[:]),
@@ -131,7 +137,12 @@ func pts(c *mon.Ctx, v uint64, r *gen.Rand, class string) {
 			copy(buf[5:10], e[:])
 		}
 		orig := append([]byte{}, buf...)
-		gots.InsertPTS(buf[5:10:16], v)
+		if kind%2 == 0 {
+			gots.InsertPTS(buf[5:10:16], v)
+		} else {
+			gots.InsertPTS(buf[5:], v)
+			c.Count("pts.destination_longer_than_the_field")
+		}
 		c.Eval(1)
 		for i := 0; i < 5; i++ {
 			m := ref.PTSValueMask[i] | ref.PTSMarkerMask[i]
@@ -291,6 +302,38 @@ func endToEnd(c *mon.Ctx, r *gen.Rand) {
 		}
 		if g, _ := af.PCR(); withP && g != v {
 			c.Fail("e2e:pcr-after-opcr", "setting the OPCR changed the PCR", wit{Op: "PCR", Value: v, Got: fmt.Sprint(g)})
+		}
+	}
+	// the adaptation field travels to another packet (SetAdaptationField) that had fewer, as many or more optional
+	// fields of its own: the clock references read back from there are the ones that were set
+	if r.Chance(3) {
+		q := packet.New()
+		q.SetAdaptationFieldControl(packet.PayloadAndAdaptationFieldFlag)
+		if qa, err := q.AdaptationField(); err == nil {
+			switch r.Intn(4) {
+			case 1:
+				qa.SetHasPCR(true)
+				qa.SetPCR(r.Uint64() % ref.PCRMax)
+			case 2:
+				qa.SetHasPCR(true)
+				qa.SetHasOPCR(true)
+				qa.SetHasTransportPrivateData(true)
+				qa.SetTransportPrivateData(r.Bytes(1 + r.Intn(30)))
+			case 3:
+				qa.SetHasOPCR(true)
+				qa.SetOPCR(r.Uint64() % ref.PCRMax)
+			}
+		}
+		if err := q.SetAdaptationField(af); err != nil {
+			c.Fail("e2e:af-copy", "SetAdaptationField of a field with clock references into a packet with a 182-byte field failed: "+err.Error(), nil)
+		} else if qa, err := q.AdaptationField(); err == nil {
+			c.Count("e2e.field_copied_to_another_packet")
+			if g, err := qa.PCR(); withP && (err != nil || g != v) {
+				c.Fail("e2e:pcr-after-copy", fmt.Sprintf("PCR() of the packet the adaptation field was copied to = %d, %v; the PCR set is %d", g, err, v), wit{Op: "SetAdaptationField, PCR", Value: v, Got: fmt.Sprint(g)})
+			}
+			if g, err := qa.OPCR(); withO && (err != nil || g != o) {
+				c.Fail("e2e:opcr-after-copy", fmt.Sprintf("OPCR() of the packet the adaptation field was copied to = %d, %v; the OPCR set is %d", g, err, o), wit{Op: "SetAdaptationField, OPCR", Value: o, Got: fmt.Sprint(g)})
+			}
 		}
 	}
 	// one clock reference is taken away again (with further fields behind it): the other one stays what it was
